@@ -301,10 +301,19 @@ class NP:
     if kinds[0] == 'int' and all(k == 'all' for k in kinds[1:]):
       i = self.nonneg_index(cx, pattern[0][1], st.shape.dims[0])
       if r == 1:
+        if not elem_sort_real:
+          cx.p.assume(z3.IsInt(TH.at1(st.term, i)))         # an integer array holds integers
         return TH.at1(st.term, i) if elem_sort_real else z3.ToInt(TH.at1(st.term, i))
       return TH.row(st.term, i)
     if r >= 2 and kinds[0] == 'all' and kinds[1] == 'int' and all(k == 'all' for k in kinds[2:]):
       return TH.take1(st.term, pattern[1][1])
+    if r == 1 and kinds == ['arr']:
+      ist = cx.st(pattern[0][1])
+      if ist.term is not None and ist.kind == 'i' and ist.shape.concrete:
+        if ist.shape.rank == 1:
+          return TH.takev(st.term, ist.term)               # b[I], I one-dimensional
+        if ist.shape.rank == 2:
+          return TH.itake(st.term, ist.term)               # b[I], I two-dimensional
     if r == 2 and kinds == ['int', 'int']:
       return TH.at2(st.term, pattern[0][1], pattern[1][1]) if elem_sort_real else None
     if r == 3 and kinds[0] == 'all' and kinds[1] in ('slice', 'list') and kinds[2] == 'all':
